@@ -52,6 +52,18 @@ CLAIMED['C09'] = dict(
   note='Assume/guarantee: ContactlessFrontend.exchange raises only CommunicationError subclasses or IOError (C13). Trusted: RLock re-entrancy, '
        'Condition.wait releases the lock. 10 infeasible may-raise reports are suppressed one by one in nfcsa/rules/c09.py with anchor-checked reasons.',
   technique='exception-escape analysis + CFG must-pass-through + lock-region wait discipline (ast)')
+CLAIMED['C10'] = dict(
+  category='other',
+  text='Decides the budget arithmetic behind the MIU limit on every path: each subtraction from the budget in ServiceDiscovery.dequeue is '
+       'dominated by a guard proving the budget covers the cost (CFG lower-bound analysis) and the per-item costs equal the terms of '
+       'ServiceNameLookup.__len__; __len__ == encoded length for all 15 PDU classes (the collector budgets with len()); the aggregation budget '
+       'is send-miu - len(agf) - k with k >= the largest header, recomputed after every append, and every aggregation-phase dequeue runs with a '
+       'proven non-negative budget; each dequeue implementation returns a PDU only where its information field (+ICV) was compared with '
+       'miu_size; EMSGSIZE gates dominate PDU creation and the link MIU is copied/clamped into sockets. Receiver-side transparency of '
+       'aggregation is not decided.',
+  design_ref='DESIGN.md section 3 C10',
+  note='Raw access point sockets bypass the limit by design (named in the property). Trusted: struct sizes; len(x.encode()) == len(x) induction.',
+  technique='CFG lower-bound/dominance analysis + symbolic length agreement (ast)')
 NA_REASON = {}
 def main():
     checks = []
